@@ -361,10 +361,60 @@ theorem gen_keyArg (kind : JoinKind) (p : KeyPair) :
     keyArg kind.jt p = if kind = .fullOuter then .coalesce p.2.1 p.2.2 p.1 p.1 else .name p.1 := by
   cases kind <;> simp [keyArg, JoinKind.jt, coalesceJoinType, coalesceArgs, sideCte]
 
-theorem gen_nameJoinArgs (kind : JoinKind) (L R : List Name) (pairs : List KeyPair) :
+/-! #### renderings of column names -/
+
+def NoBacktick (n : Name) : Prop := '`' ∉ n.toList
+
+theorem bt_toList : ("`" : String).toList = ['`'] := rfl
+
+/-- the quote-preserving rendering tells backtick-free names apart -/
+theorem quoteName_inj (a b : Name) (ha : NoBacktick a) (hb : NoBacktick b) (h : quoteName a = quoteName b) : a = b := by
+  unfold quoteName at h
+  cases qa : needsQuote a <;> cases qb : needsQuote b <;> simp only [qa, qb, if_true, if_false, Bool.false_eq_true] at h
+  · exact h
+  · exfalso; apply ha; rw [h]; simp [String.toList_append, bt_toList]
+  · exfalso; apply hb; rw [← h]; simp [String.toList_append, bt_toList]
+  · have := congrArg String.toList h
+    simp only [String.toList_append, bt_toList, List.cons_append, List.nil_append, List.cons.injEq, true_and] at this
+    exact String.ext (List.append_cancel_right this)
+
+/-- no column is confused with a key by the rendering the de-duplication compares (`renderOK_of_noBacktick`: true whenever
+    no name contains a backtick) -/
+def RenderOK (cols keys : List Name) : Prop := ∀ c ∈ cols, ∀ k ∈ keys, quoteName c = quoteName k → c = k
+
+theorem renderOK_of_noBacktick (cols keys : List Name) (hc : ∀ c ∈ cols, NoBacktick c) (hk : ∀ k ∈ keys, NoBacktick k) :
+    RenderOK cols keys := fun c hcm k hkm h => quoteName_inj c k (hc c hcm) (hk k hkm) h
+
+theorem RenderOK.mono {cols cols' keys : List Name} (h : RenderOK cols keys) (hs : ∀ c ∈ cols', c ∈ cols) : RenderOK cols' keys :=
+  fun c hc k hk e => h c (hs c hc) k hk e
+
+/-- the generated renderings agree on both sides of the de-duplication test: a select column is dropped iff it is a key -/
+theorem gen_dedup_test (jt : String) (pairs : List KeyPair) (c : Name) (hr : ∀ k ∈ pairs.map (·.1), quoteName c = quoteName k → c = k) :
+    (selectNameRender.apply c ∈ dedupKeyNames jt pairs) ↔ c ∈ pairs.map (·.1) := by
+  have hk : dedupKeyNames jt pairs = pairs.map (fun p => quoteName p.1) := by
+    simp [dedupKeyNames, dedupKeyRender, keyNameRender, Render.apply]
+  rw [hk]
+  simp only [selectNameRender, Render.apply, List.mem_map]
+  constructor
+  · rintro ⟨p, hp, e⟩
+    have := hr p.1 (List.mem_map.mpr ⟨p, hp, rfl⟩) e.symm
+    exact ⟨p, hp, this.symm⟩
+  · rintro ⟨p, hp, e⟩
+    exact ⟨p, hp, by rw [e]⟩
+
+theorem gen_nameJoinArgs (kind : JoinKind) (L R : List Name) (pairs : List KeyPair)
+    (hr : RenderOK (selectColumns kind.jt L R) (pairs.map (·.1))) :
     nameJoinArgs kind.jt L R pairs = pairs.map (keyArg kind.jt) ++
       ((selectColumns kind.jt L R).filter (fun c => c ∉ pairs.map (·.1))).map .name := by
-  simp [nameJoinArgs, keysFirst, dedupKeysOnly]
+  simp only [nameJoinArgs, keysFirst, dedupKeysOnly, if_true]
+  congr 2
+  apply List.filter_congr
+  intro c hc
+  have := gen_dedup_test kind.jt pairs c (hr c hc)
+  by_cases h : c ∈ pairs.map (·.1)
+  · simp [h, this.mpr h]
+  · have h' : ¬ (selectNameRender.apply c ∈ dedupKeyNames kind.jt pairs) := fun x => h (this.mp x)
+    simp [h, h']
 
 theorem gen_walkOrder (kind : JoinKind) (a b : Name × List Name) :
     walkOrder kind.jt [a, b] = if kind = .rightOuter then [b, a] else [a, b] := by
@@ -375,7 +425,7 @@ theorem gen_keyPairs (lt rt : Name) (Lc : List Name) : ∀ (keys : List Name), (
   | [], _ => rfl
   | k :: ks, h => by
     have hk : k ∈ Lc := h k (by simp)
-    simp [keyPairs, keyLeftmostFirst, hk, gen_keyPairs lt rt Lc ks (fun x hx => h x (by simp [hx]))]
+    simp [keyPairs, keyLeftmostFirst, keyLookupRender, Render.apply, hk, gen_keyPairs lt rt Lc ks (fun x hx => h x (by simp [hx]))]
 
 
 /-! ### where one name goes, two tables -/
@@ -521,7 +571,7 @@ theorem pairs_keys (lt rt : Name) (keys : List Name) :
 
 theorem nameJoin_items (kind : JoinKind) (hk : kind ≠ .cross) (lt rt : Name) (Lc Rc keys : List Name)
     (hL : Lc.Nodup) (hR : Rc.Nodup) (hkn : keys.Nodup) (hkL : ∀ k ∈ keys, k ∈ Lc) (hkR : ∀ k ∈ keys, k ∈ Rc)
-    (hcoll : NoRightCollision kind Lc Rc keys) :
+    (hcoll : NoRightCollision kind Lc Rc keys) (hr : RenderOK (Lc ++ Rc) keys) :
     resolveArgs (walkOrder kind.jt [(lt, Lc), (rt, Rc)]) []
         (nameJoinArgs kind.jt Lc Rc (keys.map (fun k => (k, lt, rt)))) =
       keys.map (keyItem kind lt rt) ++ (Lc.filter (fun c => c ∉ keys)).map (fun c => (c, Expr.col (qual lt c))) ++
@@ -543,7 +593,10 @@ theorem nameJoin_items (kind : JoinKind) (hk : kind ≠ .cross) (lt rt : Name) (
     · simp only [h1, if_false, Nat.zero_add]
       exact List.count_eq_zero_of_not_mem (fun h => h1 (hLm c h))
   have hkeys0 : ∀ c, c ∉ keys → keys.count c = 0 := fun c h => List.count_eq_zero_of_not_mem h
-  rw [gen_nameJoinArgs, gen_selectColumns, gen_walkOrder, pairs_keys, List.map_map]
+  rw [gen_nameJoinArgs kind Lc Rc _ (by
+      rw [pairs_keys, gen_selectColumns]
+      exact hr.mono (fun c hc => by cases kind <;> simp_all [JoinKind.keepsRight])),
+    gen_selectColumns, gen_walkOrder, pairs_keys, List.map_map]
   have hka : (fun k => keyArg kind.jt ((k, lt, rt) : KeyPair)) =
       fun k => if kind = .fullOuter then SelArg.coalesce lt rt k k else SelArg.name k := by
     funext k; rw [gen_keyArg]
@@ -767,5 +820,77 @@ theorem exprJoin_row (kind : JoinKind) (lt rt : Name) (L R : Table) (hL : L.WF) 
       Function.comp_def, eval, List.append_nil, List.map_nil]
     exact (List.map_congr_left (fun c hc => hq.leftOnly _ c hc)).trans (map_lookup_self L.cols _ hL.1 hll)
 
+
+/-! ### `select` with star arguments -/
+
+theorem popSeq_append_last {α} (is : List Nat) (xs : List α) (x : α) (ys : List α) (h : popSeq is xs = some ys) :
+    popSeq is (xs ++ [x]) = some (ys ++ [x]) := by
+  induction is generalizing xs with
+  | nil => simp [popSeq] at h ⊢; rw [h]
+  | cons i is ih =>
+    simp only [popSeq] at h ⊢
+    by_cases hi : i < xs.length
+    · simp only [hi, if_true] at h
+      have hi' : i < (xs ++ [x]).length := by simp; omega
+      simp only [hi', if_true]
+      rw [List.eraseIdx_append_of_lt_length hi]
+      exact ih _ h
+    · simp [hi] at h
+
+theorem idxOf_append_single {α} (p : α → Bool) (xs : List α) (x : α) :
+    idxOf p (xs ++ [x]) = idxOf p xs ++ (if p x then [xs.length] else []) := by
+  simp only [idxOf, List.zipIdx_append, List.filter_append, List.map_append]
+  congr 1
+  by_cases h : p x <;> simp [List.zipIdx, h]
+
+theorem popSeq_back_to_front_rev {α} (p : α → Bool) (xs : List α) :
+    popSeq (idxOf p xs.reverse).reverse xs.reverse = some (xs.reverse.filter (fun x => !p x)) := by
+  induction xs with
+  | nil => rfl
+  | cons x xs ih =>
+    rw [List.reverse_cons, idxOf_append_single]
+    by_cases h : p x
+    · simp only [h, if_true, List.reverse_append, List.reverse_cons, List.reverse_nil, List.nil_append, List.singleton_append, popSeq]
+      have : xs.reverse.length < (xs.reverse ++ [x]).length := by simp
+      simp only [this, if_true]
+      rw [List.eraseIdx_append_of_length_le (Nat.le_refl _)]
+      simp [ih, List.filter_append, h]
+    · simp only [h, Bool.false_eq_true, if_false, List.append_nil]
+      rw [popSeq_append_last _ _ _ _ ih]
+      simp [List.filter_append, h]
+
+/-- popping the positions of the `p`-elements from the back removes exactly those elements -/
+theorem popSeq_back_to_front {α} (p : α → Bool) (l : List α) :
+    popSeq (idxOf p l).reverse l = some (l.filter (fun x => !p x)) := by
+  have := popSeq_back_to_front_rev p l.reverse
+  simpa using this
+
+theorem eraseIdx_map' {α β} (f : α → β) : ∀ (l : List α) (i : Nat), (l.map f).eraseIdx i = (l.eraseIdx i).map f
+  | [], _ => rfl
+  | _ :: _, 0 => rfl
+  | a :: as, i + 1 => by simp [List.eraseIdx, eraseIdx_map' f as i]
+
+theorem popSeq_map {α β} (f : α → β) (is : List Nat) (l : List α) :
+    popSeq is (l.map f) = (popSeq is l).map (fun r => r.map f) := by
+  induction is generalizing l with
+  | nil => rfl
+  | cons i is ih =>
+    simp only [popSeq, List.length_map]
+    by_cases hi : i < l.length
+    · simp only [hi, if_true]
+      rw [← ih]
+      congr 1
+      exact eraseIdx_map' f l i
+    · simp [hi]
+
+/-- bare names resolved as expressions (`select('*')`) and as `join`'s own select arguments go the same way -/
+theorem resolveAllQ_bare (t : List (Name × List Name)) (b : List Name) (ns : List Name) :
+    toExprs (resolveAllQ t b (ns.map (fun n => QExpr.col none n none))) =
+      some ((resolveArgs t b (ns.map .name)).map (·.2)) := by
+  induction ns generalizing b with
+  | nil => rfl
+  | cons c cs ih =>
+    simp only [List.map_cons, resolveAllQ, resolveQ, resolveArgs, toExprs, ih, resolveName]
+    cases pickCte (candidates t c) (b.count c) <;> simp [QExpr.toExpr]
 
 end Sqlframe
